@@ -19,7 +19,7 @@ from ropt.transforms import OptModelTransforms, VariableScaler
 ID = "C06"
 LEVEL = "exploration"
 RULE = (
-    "Hypothesis: ensembles R in 1..4, K in 1..2, C in 0..2, n in 1..3, P in 1..3; realization weights with zeros; 0-1 "
+    "Hypothesis: ensembles R in 1..4, K in 1..2, C in 0..2, n in 1..3, P in 1..3; realization weights with zeros and with tiny non-zero entries (2e-9, 5e-13); 0-1 "
     "filters (sort/cvar) on objectives and/or constraints; variable/objective/constraint scaling transforms; "
     "evaluation_info present or not; histories of 1-6 calculate() calls on one EnsembleEvaluator (functions on single "
     "vectors or batches of 1-3, gradients after functions at the same point = split, gradients alone, both; a third of "
@@ -444,7 +444,7 @@ def hypothesis_shard(item: dict[str, Any]) -> Collector:
     def cases(draw: Any) -> dict[str, Any]:  # noqa: ANN401
         n, r_n, p_n = draw(st.integers(1, 3)), draw(st.integers(1, 4)), draw(st.integers(1, 3))
         k_n, c_n = draw(st.integers(1, 2)), draw(st.integers(0, 2))
-        weights = [draw(st.sampled_from([0.0, 0.0, 1.0, 1.0, 2.0])) for _ in range(r_n)]
+        weights = [draw(st.sampled_from([0.0, 0.0, 1.0, 1.0, 2.0, 2e-9, 5e-13])) for _ in range(r_n)]  # tiny is not zero
         if sum(weights) == 0:
             weights[draw(st.integers(0, r_n - 1))] = 1.0
         filters = []
@@ -493,7 +493,7 @@ def hypothesis_shard(item: dict[str, Any]) -> Collector:
         col.case(case, nontrivial=nontrivial, classes=(
             "inactive-entries" if stats["inactive"] else "all-active", "memo-repeat" if stats["repeats"] else "no-repeat",
             f"transforms={case['transforms'] or 'none'}", "filters" if case["filters"] else "no-filters",
-            "zero-weights" if 0.0 in case["weights"] else "positive-weights", *(f"op={k}" for k in sorted(kinds)),
+            "zero-weights" if 0.0 in case["weights"] else "positive-weights", "tiny-weights" if any(0 < w < 1e-6 for w in case["weights"]) else "no-tiny-weights", *(f"op={k}" for k in sorted(kinds)),
             "aborted" if stats["aborted"] else "completed", "info" if case["info"] else "no-info",
             "persistent-readonly-buffers" if case["readonly"] and not case["memo"] else "fresh-or-memo-arrays",
             "readonly-x" if case["ro_x"] else "plain-x", f"splits={stats['splits']}" if stats["splits"] < 2 else "splits>=2"))  # noqa: PLR2004
